@@ -96,10 +96,23 @@ TEXTS = {
                      'invalid-result error escape, with and without trailing comment, signature-mismatch path included. Bounded: every '
                      'single fault position x 6 classes x wraps on all trees of <= 4 (5) invocations: siblings/ancestors unchanged.',
                 note=_ENC + 'the warning text and that ancestors are unaffected are bounded only; _warn_about_bad_printer is a trusted straight-line contract.'),
-    'C15': dict(category='other', engine='bounded', technique='frame obligations decided by effect analysis over the ast of the real source (one obligation per mutation site, module-level mutable binding, global rebinding, memoising decorator, id() call, settings flow); ' + _BOUNDED,
-                text='Proved on the source (frame): the three registries are the only module-level mutable state of prettyprinter.py and are written only by register_pretty / is_registered. Bounded-exhaustive: all operation histories of length <= 3 (4) over 60 operations on a 5-class lattice with a diamond, '
+    'C15': dict(category='proof', engine='pyvc+bounded', technique=_PYVC + '; frame obligations decided by effect analysis over the ast of the real source; ' + _BOUNDED,
+                text='Proved for all inputs from the source of prettyprinter.py (family registry, 322 obligations) over an abstract view of the three '
+                     'registries (class -> printer, qualified name -> printer, ordered predicate list) and for EVERY state, class and MRO (the MRO '
+                     'is an arbitrary list headed by the class): register_pretty validates its arguments and its decorator writes exactly one entry '
+                     'of exactly one registry by the kind of its argument (a later registration replaces the entry); is_registered answers "some '
+                     'class of the MRO / the class itself has an entry", by-name entries counting iff check_deferred, for all 8 flag combinations, '
+                     'raises ValueError exactly for the forbidden one, changes nothing with register_deferred=False; whatever it promotes, the '
+                     'printer the rule names (nearest class of the MRO with a by-name or direct entry) is unchanged for EVERY class (lemma '
+                     'lemma_promotion_invisible, by induction over the MRO); after the call every print makes first, singledispatch\'s lookup IS '
+                     'the rule\'s printer (pretty_python_value: the printer that runs is eff of the unwrapped value\'s class); _repr_pretty runs the '
+                     'first-registered accepting predicate, otherwise repr (loop invariant). Histories: each operation is one of these '
+                     'contracts over the view, so the rule holds after every history by induction on its length (meta-argument). Bounded '
+                     'stand-in: all operation histories of length <= 3 (4) over 68 operations on a 5-class lattice with a diamond and object, '
                      'random histories up to length 12, against the reference dispatch rule of the statement.',
-                note='histories registering one class both directly and by name are outside the statement; one ambiguous flag case accepted either way (DESIGN).'),
+                note=_ENC + 'singledispatch is modelled (first direct entry along the MRO; base printer under object; no ABC virtual subclasses, '
+                            'no dispatch cache); distinct classes have distinct qualified names; registered wrappers are identified with their '
+                            'printers; the quantified invariant "every pending by-name printer accepts (value, ctx)" is used through instances.'),
     'C16': dict(category='other', engine='bounded', technique='frame obligations decided by effect analysis over the ast of the real source (one obligation per mutation site, module-level mutable binding, global rebinding, memoising decorator, id() call, settings flow); ' + _BOUNDED + ' (styles x tokens exhaustive)',
                 text='Proved on the source (frame): the colour cache of the colored renderer is local to the call, the only non-local writes are the stream and the palette. Exhaustive for the finite quantifier styles x tokens (52 x 14 x 3 color modes); bounded for values and for annotated documents '
                      '(token annotations nested to depth 3 with non-token annotations anywhere): stripped text equals plain text, per-character style, reset at the end.',
